@@ -71,7 +71,7 @@ class PDDLFunction:
 
         :param value: the value to set to the function.
         """
-        self.stored_value = value
+        self.stored_value = float(value)
 
     @property
     def state_representation(self) -> str:
